@@ -7,7 +7,8 @@ usage: run_all_seeded.py [seed-id ...]      (default: every seeded change whose 
 import json, os, re, shutil, subprocess, sys, time
 VERIF = os.path.dirname(os.path.dirname(os.path.abspath(__file__)))
 S = os.path.join(VERIF, "seeded")
-WT, HS, OUT = "/tmp/seedrepo", "/tmp/seedharness", "/tmp/seedout"
+SLOT = os.environ.get("SEED_SLOT", "")      # several batches may run side by side, each in its own scratch directories
+WT, HS, OUT = "/tmp/seedrepo" + SLOT, "/tmp/seedharness" + SLOT, "/tmp/seedout" + SLOT
 
 
 def sh(cmd, **kw):
@@ -30,7 +31,7 @@ def main():
             shutil.copy(os.path.join(VERIF, "harness", "src", fn), os.path.join(HS, "src", fn))
     t = open(os.path.join(VERIF, "harness", "Cargo.toml")).read().replace('path = "/repo"', f'path = "{WT}"')
     open(os.path.join(HS, "Cargo.toml"), "w").write(t)
-    detf = os.path.join(S, "detection.json")
+    detf = os.path.join(S, f"detection{SLOT}.json")
     det = json.load(open(detf)) if os.path.exists(detf) else {}
     env = dict(os.environ, VERIF_REPO=WT, VERIF_HARNESS=HS, VERIF_OUT=OUT)
     # a change seeded for one property may surface through the check of a related one
@@ -45,6 +46,8 @@ def main():
                 break
     sh(f"git -C /repo worktree remove --force {WT}")
     shutil.rmtree(OUT, ignore_errors=True)
+    if SLOT:
+        shutil.rmtree(HS, ignore_errors=True)
 
 
 def run_one(d, prop, det, detf, env):
